@@ -3522,3 +3522,12 @@ def _small_int_arith(eng, t, a, fr, dt):
     if eng.ctx.branch(over):
         return NONE
     return some(_mkint(ty, res))
+
+
+@reg('Chars::as_str')
+def _chars_as_str(eng, t, a, fr, dt):
+    it = deref_all(a[0])
+    if type(it) is Iter and it.kind == 'chars':
+        st, pos = it.s
+        return Str(st.c[pos:])
+    raise Unmodelled('Chars::as_str on %r' % (it,))
